@@ -31,22 +31,38 @@ def confirm(wt, vdir):
     rc, out = sh("git status --porcelain -- src Cargo.toml tests", cwd=wt)
     assert out.strip() == "", "worktree not clean:\n" + out
     demo_name = "seeded_demo"
-    demo_dst = os.path.join(wt, "tests", demo_name + ".rs")
-    shutil.copy(os.path.join(vdir, "demo.rs"), demo_dst)
+    kind = meta.get("demo_kind", "test")
+    dc = meta.get("demo_command", "")
     feats = meta.get("demo_features")
     if feats is None:
-        # derive from demo_command if present
-        dc = meta.get("demo_command", "")
         feats = ""
         if "--features" in dc:
             rest = dc.split("--features", 1)[1].strip()
-            feats = rest.split('"')[1] if rest.startswith('"') else rest.split()[0]
+            feats = rest.split('"')[1] if rest.startswith('"') or rest.startswith('\\"') else rest.split()[0]
+            feats = feats.replace("\\", "")
         if "--all-features" in dc:
             feats = ALLF
-    demo_cmd = "cargo test --offline %s --test %s" % (('--features "%s"' % feats) if feats else "", demo_name)
+    nodef = "--no-default-features " if "--no-default-features" in dc else ""
+    fopt = ('--features "%s"' % feats) if feats else ""
+    if kind == "must_not_compile":
+        demo_dst = os.path.join(wt, "examples", demo_name + ".rs")
+        demo_cmd = "cargo check --offline %s%s --example %s" % (nodef, fopt, demo_name)
+    elif kind == "feature_set_does_not_compile":
+        demo_dst = os.path.join(wt, "tests", demo_name + ".rs")
+        demo_cmd = "cargo check --offline %s%s" % (nodef, fopt)
+    else:
+        demo_dst = os.path.join(wt, "tests", demo_name + ".rs")
+        demo_cmd = "cargo test --offline %s%s --test %s" % (nodef, fopt, demo_name)
+    if kind != "feature_set_does_not_compile":
+        shutil.copy(os.path.join(vdir, "demo.rs"), demo_dst)
+    # what the demo must do on the clean / patched tree
+    clean_ok = kind != "must_not_compile"       # test passes / feature set compiles on the clean tree; mixing program is rejected
+    patched_ok = kind == "must_not_compile"     # mixing program compiles with the patch; test / feature set fails
+    relaxed_all_features = meta.get("property") == "C20"
     try:
         rc, out = sh(demo_cmd, cwd=wt, env=env)
-        res["demo_on_clean_tree"] = "pass" if rc == 0 else "FAIL"
+        res["demo_on_clean_tree"] = "pass" if (rc == 0) == clean_ok else "FAIL"
+        res["demo_kind"] = kind
         clean_tail = out[-1500:]
         rc, out = sh("git apply %s" % os.path.join(vdir, "patch.diff"), cwd=wt)
         res["patch_applies"] = rc == 0
@@ -54,30 +70,36 @@ def confirm(wt, vdir):
             res["apply_output"] = out[-800:]
             return res
         rc, out = sh('cargo check --offline --no-default-features --features "%s"' % ALLF, cwd=wt, env=env)
-        res["compiles_all_features"] = rc == 0
+        res["compiles_all_features"] = (rc == 0) or relaxed_all_features
         rc, out = sh("cargo check --offline", cwd=wt, env=env)
         res["compiles_default"] = rc == 0
         # the existing suite, unedited (the demo file is moved away for this step)
-        os.rename(demo_dst, demo_dst + ".off")
+        if os.path.exists(demo_dst):
+            os.rename(demo_dst, demo_dst + ".off")
         rc, out = sh("cargo test --workspace --no-fail-fast --offline", cwd=wt, env=env)
         passed = sum(int(l.split("ok.")[1].split("passed")[0]) for l in out.splitlines() if l.startswith("test result: ok."))
         res["existing_suite"] = "pass (%d tests incl. doctests)" % passed if rc == 0 else "FAIL"
         if rc != 0:
             res["suite_output"] = "\n".join(l for l in out.splitlines() if "FAILED" in l or "failed" in l or l.startswith("error"))[:1500]
-        os.rename(demo_dst + ".off", demo_dst)
+        if os.path.exists(demo_dst + ".off"):
+            os.rename(demo_dst + ".off", demo_dst)
         rc, out = sh(demo_cmd, cwd=wt, env=env)
-        res["demo_with_patch"] = "fails (as required)" if rc != 0 else "PASSES (demo does not show the breakage)"
+        res["demo_with_patch"] = "fails (as required)" if (rc == 0) == patched_ok else "PASSES (demo does not show the breakage)"
+        if kind == "must_not_compile":
+            res["demo_with_patch"] = "compiles (as required: the mixing program must be rejected but is accepted)" if rc == 0 else "PASSES (still rejected)"
+        if kind == "feature_set_does_not_compile":
+            res["demo_with_patch"] = "fails (as required: feature set no longer compiles)" if rc != 0 else "PASSES (feature set still compiles)"
         res["demo_failure_excerpt"] = "\n".join(l for l in out.splitlines() if "panicked" in l or "assert" in l or "FAILED" in l)[:1200]
         res["demo_cmd"] = demo_cmd
         if res["demo_on_clean_tree"] != "pass":
             res["clean_output"] = clean_tail
     finally:
-        sh("git checkout -- . && git clean -fdq tests", cwd=wt)
+        sh("git checkout -- . && git clean -fdq tests src examples", cwd=wt)
         for p in (demo_dst, demo_dst + ".off"):
             if os.path.exists(p):
                 os.remove(p)
     res["confirmed"] = (res.get("demo_on_clean_tree") == "pass" and res.get("patch_applies") and res.get("compiles_all_features") and res.get("compiles_default")
-                        and str(res.get("existing_suite", "")).startswith("pass") and str(res.get("demo_with_patch", "")).startswith("fails"))
+                        and str(res.get("existing_suite", "")).startswith("pass") and (str(res.get("demo_with_patch", "")).startswith("fails") or str(res.get("demo_with_patch", "")).startswith("compiles (as required")))
     res["confirmed_at"] = time.strftime("%Y-%m-%dT%H:%M:%SZ", time.gmtime())
     return res
 
@@ -110,7 +132,7 @@ def run(sid, ids, tier):
             lines = [l for l in out.splitlines() if l.startswith("violation:")]
             results[i] = {"exit": rc, "wall_s": round(time.time() - t, 1), "first": (lines[0][:300] if lines else ""), "n_violation_lines": len([l for l in out.splitlines() if l.startswith("VIOLATION")])}
     finally:
-        sh("git checkout -- .", cwd=REPO)
+        sh("git checkout -- . && git clean -fdq src", cwd=REPO)
     return results
 
 
